@@ -22,6 +22,11 @@ var c06Corpus = []corpusCase{
 	{"D23-120-simultaneous-failures", FedInput{Spec: FixedFed(), StoreSeed: 5, Query: `{ allUsers { firstName lastName } }`, ListLen: 120, Barrier: 120,
 		Faults: []FaultSpec{{Service: "B", From: 0, Count: 120, Kind: "gqlerrors"}}}, ""},
 	{"fanout-300-no-failure", FedInput{Spec: FixedFed(), StoreSeed: 5, Query: `{ allUsers { firstName lastName nick } }`, ListLen: 300}, ""},
+	{"malformed-join-list-for-object", FedInput{Spec: FixedFed(), StoreSeed: 5, Query: `{ me { firstName lastName } }`, Faults: []FaultSpec{{Service: "A", MatchID: "root", Kind: "join-retype", Path: []string{"me"}}}}, "a failing call of the malformed kind: Execute must still return"},
+	{"malformed-join-object-for-list", FedInput{Spec: FixedFed(), StoreSeed: 5, Query: `{ allUsers { firstName lastName } }`, ListLen: 12, Faults: []FaultSpec{{Service: "A", MatchID: "root", Kind: "join-retype", Path: []string{"allUsers"}}}}, ""},
+	{"malformed-join-scalar-entry", FedInput{Spec: FixedFed(), StoreSeed: 5, Query: `{ allUsers { firstName lastName } }`, ListLen: 12, Faults: []FaultSpec{{Service: "A", MatchID: "root", Kind: "join-scalar", Path: []string{"allUsers"}}}}, ""},
+	{"malformed-join-no-id", FedInput{Spec: FixedFed(), StoreSeed: 5, Query: `{ allUsers { firstName lastName } }`, ListLen: 12, Faults: []FaultSpec{{Service: "A", MatchID: "root", Kind: "join-drop-id", Path: []string{"allUsers"}}}}, ""},
+	{"malformed-root-wrong-shape", FedInput{Spec: FixedFed(), StoreSeed: 5, Query: `{ allUsers { firstName lastName } }`, Faults: []FaultSpec{{Service: "A", MatchID: "root", Kind: "wrong-shape"}}}, ""},
 	{"root-failure", FedInput{Spec: FixedFed(), StoreSeed: 5, Query: `{ allUsers { firstName lastName } }`, Faults: []FaultSpec{{Service: "A", From: 0, Count: 1, Kind: "transport"}}}, ""},
 }
 
@@ -36,7 +41,7 @@ func (c06) Cases(tier string) int {
 }
 
 func (c06) Rule() string {
-	return "corpus (12/120 simultaneous failing dependent calls, fan-out 300), then random federations x random queries x list fan-out 0-300 x fault assignments (0..all dependent calls failing with transport errors / error lists, released together through a barrier); checked: Execute returns under a 20 s watchdog, no service call is in flight at return, the goroutine count settles back, the response does not change after return, the error list has one entry per injected error; non-trivial = at least 3 service calls; distinct = distinct (federation, query, fan-out, fault spec)"
+	return "corpus (12/120 simultaneous failing dependent calls, fan-out 300), then random federations x random queries x list fan-out 0-300 x fault assignments (0..all dependent calls failing with transport errors / error lists, released together through a barrier; a root call answering with a malformed payload: wrong shape, empty, or an otherwise correct answer malformed at the position a dependent step joins); checked: Execute returns under a 20 s watchdog, no service call is in flight at return, the goroutine count settles back, the response does not change after return, the error list has one entry per injected error; non-trivial = at least 3 service calls; distinct = distinct (federation, query, fan-out, fault spec)"
 }
 
 // Run repeats a case: whether the collector's `select` picks the result or the error queue is a coin flip
@@ -74,10 +79,12 @@ func (c06) once(c *Ctx, i int) CaseResult {
 		r := c.Rand(i)
 		in, feats = GenFedInput(c, i, "C06")
 		// queries without directives on composites etc. are irrelevant here; what matters is fan-out and faults
+		fixedQ := -1
 		if r.Intn(2) == 0 {
 			in.Spec = FixedFed()
+			fixedQ = r.Intn(4)
 			in.Query = []string{`{ allUsers { firstName lastName } }`, `{ allUsers { firstName lastName nick photos { url likes } } }`,
-				`{ allUsers { friends { lastName nick } } }`, `{ allPhotos { url likes owner { firstName nick } } }`}[r.Intn(4)]
+				`{ allUsers { friends { lastName nick } } }`, `{ allPhotos { url likes owner { firstName nick } } }`}[fixedQ]
 			in.Vars = nil
 		}
 		in.OddIDs = false
@@ -91,6 +98,13 @@ func (c06) once(c *Ctx, i int) CaseResult {
 				in.Barrier = nf
 			}
 			feats[fmt.Sprintf("faults-%d", nf)] = true
+		}
+		if fixedQ >= 0 && r.Intn(4) == 0 {
+			// a call that fails by answering with a malformed payload (at a join position, or as a whole)
+			site := [][2]interface{}{{"A", []string{"allUsers"}}, {"A", []string{"allUsers"}}, {"A", []string{"allUsers", "friends"}}, {"B", []string{"allPhotos", "owner"}}}[fixedQ]
+			kind := []string{"join-retype", "join-scalar", "join-drop-id", "wrong-shape", "empty"}[r.Intn(5)]
+			in.Faults = append(in.Faults, FaultSpec{Service: site[0].(string), MatchID: "root", Kind: kind, Path: site[1].([]string)})
+			feats["malformed:"+kind] = true
 		}
 		feats[fmt.Sprintf("fanout-%d", in.ListLen)] = true
 		id = fmt.Sprintf("gen:%d", i)
